@@ -34,7 +34,8 @@ PROFILES = {
         },
         "core": ["vec", "tab_dict", "tab_vecs"],
         "knobs": {"p_fault": [0.0, 0.1, 0.2], "p_natural": [0.05, 0.1, 0.2], "p_ragged": [0.1, 0.2, 0.35],
-                  "p_col_from_vec": [0.0, 0.3], "max_objs": [3, 6, 9], "p_empty": [0.05, 0.15], "p_dupname": [0.0, 0.15], "focus": [0.6, 0.85]},
+                  "p_col_from_vec": [0.0, 0.3], "max_objs": [3, 6, 9], "p_empty": [0.05, 0.15], "p_dupname": [0.0, 0.15], "focus": [0.6, 0.85],
+                  "kinds": [None, None, None, ["int", "str", "bytes"], ["bytes", "float"]]},
         "steps": (15, 50),
         "vid": [[1, 0, 0], [1, 0, 0], [1, 2, 0], [1, 1, 2]],
     },
@@ -92,7 +93,8 @@ PROFILES = {
         "knobs": {"p_unnamed": [0.2, 0.4], "p_dupname": [0.05, 0.25], "p_unnamed_col": [0.05, 0.2], "p_wider": [0.1, 0.2],
                   "max_objs": [6, 9], "names": [["a", "b", "c", "d", "x", "y"], ["a", "b", "A b", "x-y", "sum", "a"],
                             ["a", "b", "a_sum", "a_sum2", "a_count", "b_mean", "key", "key2", "col_sum"],
-                            ["a", "A", "a b", "A b", "a_b", "x-y", "x y", "Total", "total"]]},
+                            ["a", "A", "a b", "A b", "a_b", "x-y", "x y", "Total", "total"],
+                            ["a", "fİyat", "ısı", "maſs", "Straße", "b", "é", "x"]]},
         "steps": (15, 50),
     },
     # C09 / C12 history part: joins and aggregates inside histories that write to key columns,
